@@ -180,18 +180,19 @@ CLAIMS = {
              "spacing wide (≈45% of seeds at 12×1, k=20). cos/sin of the candidate generation are computed by numpy in the harness exactly as in the implementation (recorded, not modelled).",
         ref="§7 C19"),
     "C11": dict(
-        technique="Lean 4 proof (A* loop invariant ⇒ parent table well-founded; backward pass valid + terminating; path_valid unconditional under cost laws; chains ⇒ two-ends flux law; exact metric theorems) + bit-exact A* correspondence with IEEE doubles",
+        technique="Lean 4 proof (A* loop invariant ⇒ parent table well-founded; backward pass valid + terminating; path_valid unconditional under cost laws; path_shortest: without early stopping the returned chain is no longer than any walk from start to goal ('settled or open' loop invariant of A* with re-opening); chains ⇒ two-ends flux law; exact metric theorems) + bit-exact A* correspondence with IEEE doubles",
         text="Kernel-checked: the forward pass (priority queue, relaxation, early stopping, budget) maintains the loop invariant FInv for every graph, heuristic obeying CostLaws (< a strict order, c < c + h(a,b)) and budget, so whenever it returns, path_valid: the search returns a valid chain and the backward pass never hits a missing key; in detail, for every parent table satisfying the forward pass's invariant (parents adjacent through the recorded edge, rank strictly decreasing towards the start, "
              "parents known) the backward pass terminates and returns nodes/edges with nodes[0]=goal, nodes[-1]=start, one edge per step, consecutive nodes joined by the listed edge "
              "(start=goal gives ([goal],[])); the driver's executable validity test is sound; a valid chain of the plaquette adjacency is a chain of plaquettes, hence flipping its "
              "(pairwise different) bonds multiplies the flux of q by −1 exactly at the two ends, for both flux conventions; on exact coordinates the minimum-image distance is "
              "symmetric, non-negative, zero iff the points coincide, never longer than the Euclidean one and equal per coordinate to the smallest of the three image differences. "
+             "path_shortest / forward_optimal: for costs in any linearly ordered commutative monoid and any metric h with h ≥ 0, h(goal,goal) = 0 and the triangle inequality towards the goal (Heur), the loop without early stopping maintains: every node with a recorded cost is either open (a queue entry with priority ≤ cost + h(n,goal)) or settled (all its neighbours have cost ≤ cost + edge), every queue entry of the goal is ≥ the goal's recorded cost, child cost ≥ parent cost + edge; hence when the goal is popped its recorded cost is ≤ the length of every walk from the start (re-opening and stale queue entries included), the chain read off the parent table is no longer than that recorded cost, and so the returned path is a shortest one — for every graph and every budget. "
              "The executable A* model (priority queue with tuple order, early stopping, budget) runs on IEEE doubles with koala's own adjacency and distance values transported bit "
              "for bit and must return exactly koala's nodes and edges (plaquette and vertex paths, both metrics, early stopping on/off); success within maxits = n_edges, validity, "
              "optimality against an independent Dijkstra, the flux law and the metric axioms are evaluated on the implementation.",
         note="Trusted: Lean kernel/Mathlib/standard axioms; harness; equality of IEEE arithmetic between the compiled Lean driver and numpy. CostLaws for IEEE doubles is an assumption (positivity monitored on every lattice). "
-             "Optimality for consistent heuristics and the iteration budget are not proved (partial): they are decided on every generated query by the model's "
-             "checked output and the implementation-side oracle.",
+             "Heur (metric axioms of the centre-to-centre distance, in exact arithmetic) is an explicit hypothesis of path_shortest: the triangle inequality of the Euclidean and minimum-image distances is classical and not re-proved, and IEEE rounding of sums is modelled; optimality is additionally compared with an independent Dijkstra on every query. "
+             "That a path is found within maxits = n_edges iterations is not proved (partial): decided on every generated query.",
         ref="§7 C11"),
     "C13": dict(
         technique="Lean 4 proof (exact rounding/mod arithmetic of the dual crossing; dual edge list from C02's table; truncation corner, wrap-compensation and count lemmas) + exact correspondence",
